@@ -349,74 +349,104 @@ type c09Runner struct {
 	calcs int
 }
 
-// chain = one segment: the base input, then inputs that only raise consumption inputs
-func (r *c09Runner) segment(chain []c09In) {
-	r.rec.Reset(nil)
-	for k, in := range chain {
-		op := "raise"
-		if k == 0 {
-			op = "calc"
+// c09Step raises one consumption input (k is 1-based, 0 where it does not apply)
+type c09Step struct {
+	What string `json:"what"`
+	K    int    `json:"k"`
+	By   c09RL  `json:"by"`
+}
+
+// apply returns the raised input; ok=false when the step is not applicable (then it is not executed/recorded)
+func (st c09Step) apply(cur c09In) (c09In, bool) {
+	nx := cur.clone()
+	if st.By.CPU < 0 || st.By.Mem < 0 {
+		return nx, false
+	}
+	switch st.What {
+	case "sys":
+		nx.Sys = c09Add(nx.Sys, st.By.CPU, st.By.Mem)
+	case "anno":
+		nx.Anno = c09Add(nx.Anno, st.By.CPU, st.By.Mem)
+	case "kres":
+		if nx.Alloc.CPU < st.By.CPU || nx.Alloc.Mem < st.By.Mem {
+			return nx, false
 		}
-		out, failure := r.env.c09Exec(in)
+		nx.Alloc = c09Add(nx.Alloc, -st.By.CPU, -st.By.Mem)
+	case "margin":
+		if nx.Thr.CPU < st.By.CPU || nx.Thr.Mem < st.By.Mem {
+			return nx, false
+		}
+		nx.Thr = c09Add(nx.Thr, -st.By.CPU, -st.By.Mem)
+	case "req":
+		if st.K < 1 || st.K > len(nx.Pods) {
+			return nx, false
+		}
+		nx.Pods[st.K-1].Req = c09Add(nx.Pods[st.K-1].Req, st.By.CPU, st.By.Mem)
+	case "use":
+		if st.K < 1 || st.K > len(nx.Pods) || !nx.Pods[st.K-1].Metric {
+			return nx, false
+		}
+		nx.Pods[st.K-1].Use = c09Add(nx.Pods[st.K-1].Use, st.By.CPU, st.By.Mem)
+	case "dangling":
+		if st.K < 1 || st.K > len(nx.Dangling) {
+			return nx, false
+		}
+		nx.Dangling[st.K-1].Use = c09Add(nx.Dangling[st.K-1].Use, st.By.CPU, st.By.Mem)
+	case "app":
+		if st.K < 1 || st.K > len(nx.Apps) {
+			return nx, false
+		}
+		nx.Apps[st.K-1].Use = c09Add(nx.Apps[st.K-1].Use, st.By.CPU, st.By.Mem)
+	default:
+		return nx, false
+	}
+	return nx, true
+}
+
+// one segment: calculate on the base input, then after every raise step again
+func (r *c09Runner) segment(base c09In, steps []c09Step) {
+	r.rec.Reset(nil)
+	cur := base
+	out, failure := r.env.c09Exec(cur)
+	r.calcs++
+	if failure != "" {
+		r.rec.Emit(vu.Ev{"op": "failure", "inp": cur, "what": failure})
+		return
+	}
+	r.rec.Emit(vu.Ev{"op": "calc", "inp": cur, "out": out})
+	for _, st := range steps {
+		nx, ok := st.apply(cur)
+		if !ok {
+			continue
+		}
+		cur = nx
+		out, failure = r.env.c09Exec(cur)
 		r.calcs++
 		if failure != "" {
-			r.rec.Emit(vu.Ev{"op": "failure", "inp": in, "what": failure})
+			r.rec.Emit(vu.Ev{"op": "failure", "what": failure, "step": st})
 			return
 		}
-		r.rec.Emit(vu.Ev{"op": op, "inp": in, "out": out})
+		r.rec.Emit(vu.Ev{"op": "raise", "what": st.What, "k": st.K, "by": st.By, "out": out})
 	}
 }
 
 func c09Add(a c09RL, c, m int64) c09RL { return c09RL{a.CPU + c, a.Mem + m} }
 
-// the fixed raise chain of the enumerated tier: every consumption input of the base once, steps chosen to cross
+// the fixed raise steps of the enumerated tier: every consumption input of the base once, sizes chosen to cross
 // the other terms (usage past request, system usage past the reservations)
-func c09Chain(base c09In, c, m int64) []c09In {
-	chain := []c09In{base}
-	cur := base
-	step := func(f func(in *c09In) bool) {
-		nx := cur.clone()
-		if f(&nx) {
-			chain = append(chain, nx)
-			cur = nx
-		}
-	}
-	step(func(in *c09In) bool { in.Sys = c09Add(in.Sys, 6*c, 6*m); return true })
+func c09Steps(base c09In, c, m int64) []c09Step {
+	by := func(u int64) c09RL { return c09RL{u * c, u * m} }
+	steps := []c09Step{{"sys", 0, by(6)}}
 	for k := range base.Pods {
-		k := k
-		if base.Pods[k].Metric {
-			step(func(in *c09In) bool { in.Pods[k].Use = c09Add(in.Pods[k].Use, 4*c, 4*m); return true })
-		}
-		step(func(in *c09In) bool { in.Pods[k].Req = c09Add(in.Pods[k].Req, 5*c, 5*m); return true })
-		if base.Pods[k].Metric {
-			step(func(in *c09In) bool { in.Pods[k].Use = c09Add(in.Pods[k].Use, 12*c, 12*m); return true })
-		}
+		steps = append(steps, c09Step{"use", k + 1, by(4)}, c09Step{"req", k + 1, by(5)}, c09Step{"use", k + 1, by(12)})
 	}
 	for k := range base.Dangling {
-		k := k
-		step(func(in *c09In) bool { in.Dangling[k].Use = c09Add(in.Dangling[k].Use, 3*c, 3*m); return true })
+		steps = append(steps, c09Step{"dangling", k + 1, by(3)})
 	}
 	for k := range base.Apps {
-		k := k
-		step(func(in *c09In) bool { in.Apps[k].Use = c09Add(in.Apps[k].Use, 3*c, 3*m); return true })
+		steps = append(steps, c09Step{"app", k + 1, by(3)})
 	}
-	step(func(in *c09In) bool { in.Anno = c09Add(in.Anno, 7*c, 7*m); return true })
-	step(func(in *c09In) bool {
-		if in.Alloc.CPU < 4*c || in.Alloc.Mem < 4*m {
-			return false
-		}
-		in.Alloc = c09Add(in.Alloc, -4*c, -4*m)
-		return true
-	})
-	step(func(in *c09In) bool {
-		if in.Thr.CPU < 25 || in.Thr.Mem < 25 {
-			return false
-		}
-		in.Thr = c09Add(in.Thr, -25, -25)
-		return true
-	})
-	step(func(in *c09In) bool { in.Sys = c09Add(in.Sys, 15*c, 15*m); return true })
-	return chain
+	return append(steps, c09Step{"anno", 0, by(7)}, c09Step{"kres", 0, by(4)}, c09Step{"margin", 0, c09RL{25, 25}}, c09Step{"sys", 0, by(15)})
 }
 
 // ---------------------------------------------------------------------------------------------- enumerated tier
@@ -498,6 +528,8 @@ func c09EnumPodSets(c, m int64, thorough bool) (plain []c09PodSet, zoned []c09Po
 	return plain, zoned
 }
 
+func (r *c09Runner) run(in c09In, c, m int64) { r.segment(in, c09Steps(in, c, m)) }
+
 func (r *c09Runner) enumerate(thorough bool) {
 	// units: 100 milli-cores and 256 "bytes"; capacities are multiples of 400 so that 25/50/75 % products are exact
 	const c, m = int64(100), int64(256)
@@ -531,7 +563,7 @@ func (r *c09Runner) enumerate(thorough bool) {
 			for _, t := range tps {
 				for _, s := range srs {
 					for _, ps := range plain {
-						r.segment(c09Chain(mk(pc, pm, t, s, ps, nil, capV), c, m))
+						r.run(mk(pc, pm, t, s, ps, nil, capV), c, m)
 					}
 				}
 			}
@@ -550,7 +582,7 @@ func (r *c09Runner) enumerate(thorough bool) {
 					}
 					for _, zc := range zoneCfgs {
 						for _, ps := range zoned {
-							r.segment(c09Chain(mk(pc, pm, t, s, ps, zc, capV), c, m))
+							r.run(mk(pc, pm, t, s, ps, zc, capV), c, m)
 						}
 					}
 				}
@@ -563,10 +595,10 @@ func (r *c09Runner) enumerate(thorough bool) {
 		for _, pm := range polM {
 			for _, ps := range []c09PodSet{{}, one} {
 				for _, t := range []tp{{0, -1}, {100, 0}, {100, 100}, {100, 125}, {25, 75}} {
-					r.segment(c09Chain(mk(pc, pm, t, sr{3, 5, 0}, ps, nil, capV), c, m))
-					r.segment(c09Chain(mk(pc, pm, t, sr{3, 5, 0}, ps, zoneCfgs[1], capV), c, m))
+					r.run(mk(pc, pm, t, sr{3, 5, 0}, ps, nil, capV), c, m)
+					r.run(mk(pc, pm, t, sr{3, 5, 0}, ps, zoneCfgs[1], capV), c, m)
 				}
-				r.segment(c09Chain(mk(pc, pm, tp{50, 50}, sr{3, 0, 0}, ps, nil, 0), c, m))
+				r.run(mk(pc, pm, tp{50, 50}, sr{3, 0, 0}, ps, nil, 0), c, m)
 			}
 		}
 	}
@@ -577,7 +609,7 @@ func (r *c09Runner) enumerate(thorough bool) {
 				for _, zc := range [][]c09RL{nil, zoneCfgs[0]} {
 					in := mk("", "usage", tp{75, -1}, sr{3, 5, 0}, ps, zc, capV)
 					in.Age, in.Degrade = age, deg
-					r.segment(c09Chain(in, c, m)[:3])
+					r.segment(in, c09Steps(in, c, m)[:2])
 				}
 			}
 		}
@@ -695,74 +727,55 @@ func c09Rand(rng *rand.Rand) c09In {
 	return in
 }
 
-// a random raise of one consumption input
-func c09RandRaise(rng *rand.Rand, cur c09In) c09In {
-	nx := cur.clone()
+// a random raise step of one consumption input
+func c09RandStep(rng *rand.Rand, cur c09In) c09Step {
 	d := func(capV int64) int64 { return 1 + rng.Int63n(capV/8+1) }
-	dc, dm := d(cur.Cap.CPU), d(cur.Cap.Mem)
+	by := c09RL{d(cur.Cap.CPU), d(cur.Cap.Mem)}
 	switch rng.Intn(3) { // sometimes only one resource moves
 	case 0:
-		dc = 0
+		by.CPU = 0
 	case 1:
-		dm = 0
+		by.Mem = 0
 	}
 	for tries := 0; tries < 20; tries++ {
+		var st c09Step
 		switch rng.Intn(8) {
 		case 0:
-			nx.Sys = c09Add(nx.Sys, dc, dm)
-			return nx
+			st = c09Step{"sys", 0, by}
 		case 1:
-			if len(nx.Pods) > 0 {
-				k := rng.Intn(len(nx.Pods))
-				nx.Pods[k].Req = c09Add(nx.Pods[k].Req, dc, dm)
-				return nx
-			}
+			st = c09Step{"req", 1 + rng.Intn(len(cur.Pods)+1), by}
 		case 2:
-			if len(nx.Pods) > 0 {
-				k := rng.Intn(len(nx.Pods))
-				if nx.Pods[k].Metric {
-					nx.Pods[k].Use = c09Add(nx.Pods[k].Use, dc, dm)
-					return nx
-				}
-			}
+			st = c09Step{"use", 1 + rng.Intn(len(cur.Pods)+1), by}
 		case 3:
-			if len(nx.Dangling) > 0 {
-				k := rng.Intn(len(nx.Dangling))
-				nx.Dangling[k].Use = c09Add(nx.Dangling[k].Use, dc, dm)
-				return nx
-			}
+			st = c09Step{"dangling", 1 + rng.Intn(len(cur.Dangling)+1), by}
 		case 4:
-			if len(nx.Apps) > 0 {
-				k := rng.Intn(len(nx.Apps))
-				nx.Apps[k].Use = c09Add(nx.Apps[k].Use, dc, dm)
-				return nx
-			}
+			st = c09Step{"app", 1 + rng.Intn(len(cur.Apps)+1), by}
 		case 5:
-			nx.Anno = c09Add(nx.Anno, dc, dm)
-			return nx
+			st = c09Step{"anno", 0, by}
 		case 6:
-			if nx.Alloc.CPU >= dc && nx.Alloc.Mem >= dm {
-				nx.Alloc = c09Add(nx.Alloc, -dc, -dm)
-				return nx
-			}
+			st = c09Step{"kres", 0, by}
 		case 7:
-			tc, tm := rng.Int63n(nx.Thr.CPU+1), rng.Int63n(nx.Thr.Mem+1)
-			nx.Thr = c09Add(nx.Thr, -tc/2, -tm/2)
-			return nx
+			st = c09Step{"margin", 0, c09RL{rng.Int63n(cur.Thr.CPU+1) / 2, rng.Int63n(cur.Thr.Mem+1) / 2}}
+		}
+		if _, ok := st.apply(cur); ok {
+			return st
 		}
 	}
-	nx.Sys = c09Add(nx.Sys, dc, dm)
-	return nx
+	return c09Step{"sys", 0, by}
 }
 
 func (r *c09Runner) random(n int, salt int64) {
 	rng := vu.Rand(salt)
 	for k := 0; k < n; k++ {
-		chain := []c09In{c09Rand(rng)}
+		base := c09Rand(rng)
+		cur := base
+		var steps []c09Step
 		for j := 3 + rng.Intn(3); j > 0; j-- {
-			chain = append(chain, c09RandRaise(rng, chain[len(chain)-1]))
+			st := c09RandStep(rng, cur)
+			cur, _ = st.apply(cur)
+			steps = append(steps, st)
 		}
-		r.segment(chain)
+		r.segment(base, steps)
 	}
 }
 
@@ -786,23 +799,28 @@ func TestVerifC09(t *testing.T) {
 			var evs []struct {
 				Op  string          `json:"op"`
 				Inp json.RawMessage `json:"inp"`
+				c09Step
 			}
 			if err := json.Unmarshal(raw, &evs); err != nil {
 				t.Fatalf("bad replay script: %v", err)
 			}
-			var chain []c09In
+			var base *c09In
+			var steps []c09Step
 			for _, e := range evs {
-				if e.Op != "calc" && e.Op != "raise" && e.Op != "failure" {
-					continue
+				switch e.Op {
+				case "calc":
+					var in c09In
+					if err := json.Unmarshal(e.Inp, &in); err != nil {
+						t.Fatalf("bad replay input: %v", err)
+					}
+					in = in.clone()
+					base = &in
+				case "raise":
+					steps = append(steps, e.c09Step)
 				}
-				var in c09In
-				if err := json.Unmarshal(e.Inp, &in); err != nil {
-					t.Fatalf("bad replay input: %v", err)
-				}
-				chain = append(chain, in.clone())
 			}
-			if len(chain) > 0 {
-				r.segment(chain)
+			if base != nil {
+				r.segment(*base, steps)
 			}
 		}
 		return
